@@ -1,14 +1,15 @@
 """Which units (and extra engines) serve which property, plus MANIFEST metadata."""
-UNITS = ['u_list', 'u_jobs', 'u_tok', 'u_plan', 'u_exp1', 'u_calc', 'u_exp2', 'u_wait', 'u_fd', 'u_env']
+UNITS = ['u_list', 'u_jobs', 'u_tok', 'u_plan', 'u_exp1', 'u_calc', 'u_exp2', 'u_wait', 'u_fd', 'u_env', 'u_args']
 
 PROPERTY_UNITS = {
     'C03': ['u_list'],
     'C06': ['u_jobs', 'u_wait'],
-    'C05': ['u_list', 'u_jobs', 'u_tok', 'u_plan', 'u_exp1', 'u_calc', 'u_exp2', 'u_wait', 'u_fd', 'u_env'],
+    'C05': ['u_list', 'u_jobs', 'u_tok', 'u_plan', 'u_exp1', 'u_calc', 'u_exp2', 'u_wait', 'u_fd', 'u_env', 'u_args'],
     'C01': ['u_plan', 'u_exp1', 'u_exp2'],
     'C13': ['u_plan', 'u_exp1', 'u_exp2'],
     'C12': ['u_exp1', 'u_exp2'],
     'C10': ['u_exp2'],
+    'C15': ['u_args'],
     'C09': ['u_env', 'u_exp2'],
     'C02': ['u_fd', 'u_wait', 'u_plan'],
     'C04': ['u_fd', 'u_plan'],
@@ -126,6 +127,14 @@ META['C09'] = {
             'environment construction (inside the exec region) are not under contract; HashMap contracts stated over string views.',
 }
 
+META['C15'] = {
+    'text': 'Verus proves that the positional-parameter pass replaces every $n / ${n} / $@ reference of a word left to right by the corresponding argument (nothing when missing, '
+            'the arguments joined by blanks for $@), keeps the text in between, terminates, never touches single-quoted or backquoted tokens nor any tag; that a function call '
+            'runs its body with the positional parameters [name, words of the call] and that its status is that of the last command the body ran.',
+    'note': 'the reference regex is uninterpreted (assumed: anchored, group 3 a proper suffix); scripting::run_lines / run_exp (pest interpreter), function extraction, '
+            'source, exit and set -e are external and not covered (see C14).',
+}
+
 _PENDING = 'not yet brought under contract in this revision of /verif (work in progress; see DESIGN.md)'
 NOT_APPLICABLE = {
     'C14': 'parse tree comes from a macro-generated pest parser and the external, lifetime-parameterised pest::iterators::Pair type; no contract within reach',
@@ -133,5 +142,5 @@ NOT_APPLICABLE = {
     'C18': 'semantics live in SQLite\'s SQL parser (bundled C library); SQL is built with format!, outside Verus',
     'C20': 'needs the lineread completer protocol, a populated filesystem and the escaped-word round trip (a recorded C01 violation)',
 }
-for _p in ['C07', 'C11', 'C15']:
+for _p in ['C07', 'C11']:
     NOT_APPLICABLE.setdefault(_p, _PENDING)
